@@ -389,6 +389,9 @@ static int  vf_apply(vf_op_t op);                      /* 0 ok; !=0: violation a
 static int  vf_check_node(void);                       /* node oracle; 0 ok */
 
 typedef struct vf_seq_cfg_s { int maxdepth; int pardepth; int prune; } vf_seq_cfg_t;
+static int vf_gate_held;     /* this process holds a slot of the parallelism semaphore */
+/* end the current branch from inside an operation (e.g. from an error callback) without leaking the slot */
+static void vf_exit_branch(void) { if (vf_gate_held) { vf_gate_held = 0; sem_post(&vf_sh->sem); } _exit(0); }
 static vf_seq_cfg_t vf_seq = { 5, 2, 0 };
 
 static void vf_child_died(int status, vf_op_t op) {
@@ -420,12 +423,13 @@ static void vf_seq_node(void) {
     if (pid < 0) { perror("fork"); vf_sh->infra_error = 1; vf_sh->stop = 1; break; }
     if (pid == 0) {
       int gate = (vf_depth + 1 == vf_seq.pardepth);
-      if (gate) sem_wait(&vf_sh->sem);
+      vf_gate_held = 0;
+      if (gate) { sem_wait(&vf_sh->sem); vf_gate_held = 1; }
       vf_path[vf_depth] = ops[i]; vf_depth++;
       VF_INC(transitions);
       if (vf_sh->nsamples < VF_MAX_SAMPLES && vf_depth == vf_seq.maxdepth) { char ps[1024]; vf_path_str(ps, sizeof(ps)); vf_sample("[%s] %s", vf_cfg, ps); }
       if (vf_apply(ops[i]) != 0) vf_sh->stop = 1; else vf_seq_node();
-      if (gate) sem_post(&vf_sh->sem);
+      if (gate) { sem_post(&vf_sh->sem); vf_gate_held = 0; }
       _exit(0);
     }
     pids[i] = pid;
@@ -488,7 +492,8 @@ static void vf_write_result(const char* path, const char* extra_json /* may be N
 
 /* error callback: collects mimalloc error codes (secondary oracle) */
 static volatile int vf_err_count, vf_err_last;
-static void vf_error_cb(int err, void* arg) { (void)arg; vf_err_count++; vf_err_last = err; }
+static void (*vf_error_hook)(int err);
+static void vf_error_cb(int err, void* arg) { (void)arg; vf_err_count++; vf_err_last = err; if (vf_error_hook) vf_error_hook(err); }
 
 /* silence mimalloc's own output unless verbose */
 static void vf_out_null(const char* msg, void* arg) { (void)msg; (void)arg; }
